@@ -241,6 +241,7 @@ func (s *store) SetMetadata(key string, md metadata.Metadata, scope storelib.Blo
 	if err != nil {
 		return fmt.Errorf("mem store set metadata: %w", err)
 	}
+	verifYield("store.beforeMarkMetadataDirty", key)
 	s.flusher.markMetadataDirty(key, md.GetSuffix())
 	return nil
 }
@@ -278,6 +279,7 @@ func (s *store) DeleteMetadata(key string, mdSuffix string, scope storelib.BlobS
 	if err != nil {
 		return fmt.Errorf("mem store delete metadata: %w", err)
 	}
+	verifYield("store.beforeMarkMetadataDirty", key)
 	s.flusher.markMetadataDirty(key, mdSuffix)
 	return nil
 }
